@@ -270,6 +270,7 @@ def run(chk, ctx):
     r5(chk, ctx, st)
     r6(chk, ctx, st)
     from . import round3
+    round3.update_writes_back(chk, ctx)
     round3.json_write_through(chk, ctx)
     chk.assume("redis, pottery (RedisDict/RedisList) and collections.abc.MutableMapping behave as documented")
     chk.assume("Redis client-side caching sends an invalidation only for keys read through the tracked connection, once")
